@@ -4,6 +4,7 @@ import (
 	"context"
 	"fmt"
 	"net"
+	"strings"
 	"sync"
 	"sync/atomic"
 	"time"
@@ -400,6 +401,20 @@ func c15RunGate(c *core.Ctx, k c15Case) *c15Out {
 	}
 	for _, cn := range append(cls, svs...) {
 		cn.Close()
+	}
+	// the underlay transition system (Mieru.UClose, shape of the current source) on the same interleaving:
+	// loop held before arming, Close runs to completion, then a seeded schedule to quiescence
+	if c.Model != nil {
+		b := map[bool]int{false: 0, true: 1}
+		reply := c.Model.Ask("c15-uclose 111 %d %d %d %s %d %d %d", b[!k.UDP], b[k.End == "s"], ns, site, k.Seed%7, k.Seed%5, k.Seed%3)
+		c.Compared()
+		want := "parked=0"
+		if parked {
+			want = "parked=1"
+		}
+		if !strings.HasPrefix(reply, "ok ") || !strings.Contains(reply, want) || (!parked && !strings.Contains(reply, "loop=exited")) {
+			o.disagree(fmt.Sprintf("C15/uclose-model/%s-%s-%s", site, side, tr), "event loop held before arming its read timeout (%s) while %s Close completes: the real loop parked=%v; the model of the current source replied %q", site, side, parked, reply)
+		}
 	}
 	o.calls = 1
 	return o
